@@ -381,6 +381,17 @@ func c13Life(c *mon.Ctx, r *mon.Rand) {
 		nIdents = n
 		c.Class("lifetimes-with-more-than-4096-distinct-tag-sets", 1)
 	}
+	// every tenth lifetime: a large packet limit and identities whose names are
+	// 16,383, 16,384 and 16,385 bytes long (lengths around 2^14, where the
+	// compact protocol's length prefix grows to three bytes)
+	if !manyTagSets && r.Chance(1, 10) {
+		opts.MaxPacketSizeBytes = int32(r.Range(40000, 64000))
+		for k, n := range []int{16383, 16384, 16385} {
+			idents = append(idents, m3Ident{Kind: []string{"counter", "gauge", "timer"}[k], Name: strings.Repeat("v", n), Tags: map[string]string{"len": strconv.Itoa(n)}})
+		}
+		nIdents = len(idents)
+		c.Class("lifetimes-with-names-of-2^14-bytes", 1)
+	}
 	// every eighth lifetime: a small packet limit and one identity whose name
 	// alone is longer than a packet - it travels alone, but it travels
 	if !manyTagSets && r.Chance(1, 8) {
